@@ -5,7 +5,6 @@ import (
 	"io"
 	"os"
 	"path"
-	"sort"
 	"strings"
 	"syscall"
 	"time"
@@ -28,11 +27,114 @@ type Node struct {
 	Name    string
 	Dir     bool
 	Mode    os.FileMode
-	Ents    map[string]*Node // directories: live entries
-	Ghosts  map[string]*Node // directories: removed entries whose removal is not yet durable
-	Ino     *Inode           // files
-	Durable bool             // the directory entry itself is durable
+	Ents    *DirEnts // directories: live entries
+	Ghosts  *DirEnts // directories: removed entries whose removal is not yet durable
+	Ino     *Inode   // files
+	Durable bool     // the directory entry itself is durable
 	MTime   int64
+}
+
+// DirEnts is a small name -> node table kept as parallel sorted slices.  It is
+// not a Go map on purpose: in race-detector builds the runtime annotates every
+// map access, and the simulator's own tables are touched by every task without
+// (and must stay without) happens-before edges of their own.
+type DirEnts struct {
+	names []string
+	nodes []*Node
+}
+
+//go:norace
+func newDirEnts() *DirEnts { return &DirEnts{} }
+
+//go:norace
+func (d *DirEnts) find(name string) (int, bool) {
+	if d == nil {
+		return 0, false
+	}
+	lo, hi := 0, len(d.names)
+	for lo < hi {
+		m := (lo + hi) / 2
+		if d.names[m] < name {
+			lo = m + 1
+		} else {
+			hi = m
+		}
+	}
+	return lo, lo < len(d.names) && d.names[lo] == name
+}
+
+//go:norace
+func (d *DirEnts) Get(name string) *Node {
+	i, ok := d.find(name)
+	if !ok {
+		return nil
+	}
+	return d.nodes[i]
+}
+
+//go:norace
+func (d *DirEnts) Put(name string, n *Node) {
+	i, ok := d.find(name)
+	if ok {
+		d.nodes[i] = n
+		return
+	}
+	d.names = append(d.names, "")
+	d.nodes = append(d.nodes, nil)
+	for j := len(d.names) - 1; j > i; j-- {
+		d.names[j] = d.names[j-1]
+		d.nodes[j] = d.nodes[j-1]
+	}
+	d.names[i] = name
+	d.nodes[i] = n
+}
+
+//go:norace
+func (d *DirEnts) Del(name string) {
+	i, ok := d.find(name)
+	if !ok {
+		return
+	}
+	d.names = append(d.names[:i:i], d.names[i+1:]...)
+	d.nodes = append(d.nodes[:i:i], d.nodes[i+1:]...)
+}
+
+// Len returns the number of entries.
+//
+//go:norace
+func (d *DirEnts) Len() int {
+	if d == nil {
+		return 0
+	}
+	return len(d.names)
+}
+
+// Names returns the entry names in ascending order (a copy).
+//
+//go:norace
+func (d *DirEnts) Names() []string {
+	if d == nil {
+		return nil
+	}
+	out := make([]string, len(d.names))
+	for i := range d.names {
+		out[i] = d.names[i]
+	}
+	return out
+}
+
+// Nodes returns the entries in name order (a copy).
+//
+//go:norace
+func (d *DirEnts) Nodes() []*Node {
+	if d == nil {
+		return nil
+	}
+	out := make([]*Node, len(d.nodes))
+	for i := range d.nodes {
+		out[i] = d.nodes[i]
+	}
+	return out
 }
 
 // Inode is the content of a regular file.
@@ -55,10 +157,12 @@ type PendOp struct {
 	Data  []byte
 }
 
+//go:norace
 func newDisk(w *World) *Disk {
-	return &Disk{w: w, Root: &Node{Name: "/", Dir: true, Mode: os.ModeDir | 0755, Ents: map[string]*Node{}, Durable: true}}
+	return &Disk{w: w, Root: &Node{Name: "/", Dir: true, Mode: os.ModeDir | 0755, Ents: newDirEnts(), Durable: true}}
 }
 
+//go:norace
 func split(p string) []string {
 	p = path.Clean("/" + p)
 	if p == "/" {
@@ -67,9 +171,12 @@ func split(p string) []string {
 	return strings.Split(p[1:], "/")
 }
 
+//go:norace
 func perr(op, p string, e error) error { return &os.PathError{Op: op, Path: p, Err: e} }
 
 // lookup returns the parent directory node, the final name, and the node (nil if absent).
+//
+//go:norace
 func (d *Disk) lookup(op, p string) (parent *Node, name string, n *Node, err error) {
 	parts := split(p)
 	cur := d.Root
@@ -80,7 +187,7 @@ func (d *Disk) lookup(op, p string) (parent *Node, name string, n *Node, err err
 		if !cur.Dir {
 			return nil, "", nil, perr(op, p, syscall.ENOTDIR)
 		}
-		nx := cur.Ents[c]
+		nx := cur.Ents.Get(c)
 		if i == len(parts)-1 {
 			return cur, c, nx, nil
 		}
@@ -101,6 +208,8 @@ type Action struct {
 }
 
 // enter is called at the start of every disk call.
+//
+//go:norace
 func (d *Disk) enter(class, p string, off int64, data []byte, mutating bool, ino *Inode) Action {
 	w := d.w
 	Yield("io:" + class)
@@ -109,7 +218,9 @@ func (d *Disk) enter(class, p string, off int64, data []byte, mutating bool, ino
 	}
 	w.StepIOP++
 	w.IOPTotal++
-	w.Stats.IOByKind[class]++
+	if w.Sched == nil {
+		w.Stats.IOByKind[class]++
+	}
 	if mutating {
 		w.StepFMP++
 		w.FMPTotal++
@@ -127,6 +238,8 @@ func (d *Disk) enter(class, p string, off int64, data []byte, mutating bool, ino
 // flushMmapStores finds stores made through live mappings since the last disk
 // event and turns each into a synthetic "mmap-store" FMP (so that it can be a
 // crash / torn / power-loss point and is recorded as an unsynced operation).
+//
+//go:norace
 func (d *Disk) flushMmapStores(why string) {
 	if len(d.mapped) == 0 || d.inFlush {
 		return
@@ -138,13 +251,15 @@ func (d *Disk) flushMmapStores(why string) {
 		if a < 0 {
 			continue
 		}
-		newBytes := append([]byte(nil), ino.Data[a:b]...)
+		newBytes := rawClone(ino.Data[a:b])
 		w := d.w
 		w.StepFMP++
 		w.FMPTotal++
 		w.StepIOP++
 		w.IOPTotal++
-		w.Stats.IOByKind["mmap-store"]++
+		if w.Sched == nil {
+			w.Stats.IOByKind["mmap-store"]++
+		}
 		w.Log.Add("io mmap-store ino=%d off=%d len=%d h=%x", ino.ID, a, len(newBytes), HashBytes(newBytes))
 		// present the pre-store content to the fault plan: a crash "before"
 		// this point must not contain the store.
@@ -154,7 +269,7 @@ func (d *Disk) flushMmapStores(why string) {
 		w.Faults.mmapOverride = nil
 		w.Faults.mmapPre = nil
 		ino.Pending = append(ino.Pending, PendOp{Off: int64(a), Data: newBytes})
-		copy(ino.shadow[a:b], newBytes)
+		rawCopy(ino.shadow[a:b], newBytes)
 	}
 }
 
@@ -162,8 +277,36 @@ func (d *Disk) flushMmapStores(why string) {
 // before it changes the recovery-oracle bookkeeping (acknowledgement of a
 // transaction, phase changes), so that a store is attributed to the operation
 // that made it.
+//
+//go:norace
 func (d *Disk) FlushMmap() { d.flushMmapStores("sync-point") }
 
+// rawCopy is copy() without the race detector's range annotations: file
+// content is kernel memory in the real system, not Go memory, so accesses to
+// it by the simulator must not be reported (or ordered) by the detector.
+//
+//go:norace
+func rawCopy(dst, src []byte) int {
+	n := len(src)
+	if len(dst) < n {
+		n = len(dst)
+	}
+	for i := 0; i < n; i++ {
+		dst[i] = src[i]
+	}
+	return n
+}
+
+//go:norace
+func rawClone(src []byte) []byte {
+	out := make([]byte, len(src))
+	for i := range src {
+		out[i] = src[i]
+	}
+	return out
+}
+
+//go:norace
 func diffRange(old, cur []byte) (int, int) {
 	n := len(cur)
 	if len(old) < n {
@@ -203,6 +346,7 @@ type File struct {
 	dirPos int
 }
 
+//go:norace
 func (d *Disk) OpenFile(name string, flag int, perm os.FileMode) (*File, error) {
 	class := "open"
 	act := d.enter(class, name, int64(flag), nil, flag&os.O_CREATE != 0 || flag&os.O_TRUNC != 0, nil)
@@ -227,7 +371,7 @@ func (d *Disk) OpenFile(name string, flag int, perm os.FileMode) (*File, error) 
 		}
 		d.nextIno++
 		n = &Node{Name: base, Mode: perm & os.ModePerm, Ino: &Inode{ID: d.nextIno, Links: 1}, MTime: d.w.Clock.NowNS()}
-		parent.Ents[base] = n
+		parent.Ents.Put(base, n)
 		// a re-created name supersedes a ghost of the same name only once durable;
 		// keep the ghost: power loss may bring the old file back instead.
 	} else {
@@ -244,6 +388,7 @@ func (d *Disk) OpenFile(name string, flag int, perm os.FileMode) (*File, error) 
 	return &File{d: d, path: name, node: n, ino: n.Ino, flags: flag}, nil
 }
 
+//go:norace
 func (d *Disk) truncate(ino *Inode, size int64) {
 	if int64(len(ino.Data)) == size {
 		ino.Pending = append(ino.Pending, PendOp{Trunc: true, Size: size})
@@ -258,14 +403,16 @@ func (d *Disk) truncate(ino *Inode, size int64) {
 		ino.Data = ino.Data[:size:size]
 	} else {
 		nd := make([]byte, size)
-		copy(nd, ino.Data)
+		rawCopy(nd, ino.Data)
 		ino.Data = nd
 	}
 	ino.Pending = append(ino.Pending, PendOp{Trunc: true, Size: size})
 }
 
+//go:norace
 func (f *File) Name() string { return f.path }
 
+//go:norace
 func (f *File) check(op string) error {
 	if f == nil {
 		return os.ErrInvalid
@@ -276,6 +423,7 @@ func (f *File) check(op string) error {
 	return nil
 }
 
+//go:norace
 func (f *File) ReadAt(b []byte, off int64) (int, error) {
 	if err := f.check("read"); err != nil {
 		return 0, err
@@ -300,13 +448,14 @@ func (f *File) ReadAt(b []byte, off int64) (int, error) {
 		}
 		return 0, io.EOF
 	}
-	n := copy(b, data[off:])
+	n := rawCopy(b, data[off:])
 	if n < len(b) {
 		return n, io.EOF
 	}
 	return n, nil
 }
 
+//go:norace
 func (f *File) Read(b []byte) (int, error) {
 	if err := f.check("read"); err != nil {
 		return 0, err
@@ -325,11 +474,12 @@ func (f *File) Read(b []byte) (int, error) {
 		}
 		return 0, io.EOF
 	}
-	n := copy(b, data[f.pos:])
+	n := rawCopy(b, data[f.pos:])
 	f.pos += int64(n)
 	return n, nil
 }
 
+//go:norace
 func (f *File) writeAt(b []byte, off int64, op string) (int, error) {
 	if f.node.Dir {
 		return 0, perr(op, f.path, syscall.EBADF)
@@ -374,6 +524,7 @@ func (f *File) writeAt(b []byte, off int64, op string) (int, error) {
 	return len(b), nil
 }
 
+//go:norace
 func (d *Disk) apply(ino *Inode, b []byte, off int64) {
 	if len(b) == 0 {
 		return
@@ -384,16 +535,17 @@ func (d *Disk) apply(ino *Inode, b []byte, off int64) {
 			panic("simdisk: extending a file with a live mapping is not modelled")
 		}
 		nd := make([]byte, end)
-		copy(nd, ino.Data)
+		rawCopy(nd, ino.Data)
 		ino.Data = nd
 	}
-	copy(ino.Data[off:end], b)
+	rawCopy(ino.Data[off:end], b)
 	if ino.nmap > 0 {
-		copy(ino.shadow[off:end], b)
+		rawCopy(ino.shadow[off:end], b)
 	}
-	ino.Pending = append(ino.Pending, PendOp{Off: off, Data: append([]byte(nil), b...)})
+	ino.Pending = append(ino.Pending, PendOp{Off: off, Data: rawClone(b)})
 }
 
+//go:norace
 func (f *File) WriteAt(b []byte, off int64) (int, error) {
 	if err := f.check("write"); err != nil {
 		return 0, err
@@ -407,6 +559,7 @@ func (f *File) WriteAt(b []byte, off int64) (int, error) {
 	return f.writeAt(b, off, "write")
 }
 
+//go:norace
 func (f *File) Write(b []byte) (int, error) {
 	if err := f.check("write"); err != nil {
 		return 0, err
@@ -419,8 +572,10 @@ func (f *File) Write(b []byte) (int, error) {
 	return n, err
 }
 
+//go:norace
 func (f *File) WriteString(s string) (int, error) { return f.Write([]byte(s)) }
 
+//go:norace
 func (f *File) Seek(offset int64, whence int) (int64, error) {
 	if err := f.check("seek"); err != nil {
 		return 0, err
@@ -443,6 +598,7 @@ func (f *File) Seek(offset int64, whence int) (int64, error) {
 	return np, nil
 }
 
+//go:norace
 func (f *File) Truncate(size int64) error {
 	if err := f.check("truncate"); err != nil {
 		return err
@@ -462,6 +618,7 @@ func (f *File) Truncate(size int64) error {
 	return nil
 }
 
+//go:norace
 func (f *File) Sync() error {
 	if err := f.check("sync"); err != nil {
 		return err
@@ -478,10 +635,11 @@ func (f *File) Sync() error {
 	return nil
 }
 
+//go:norace
 func (d *Disk) syncNode(n *Node) {
 	if n.Dir {
 		// fsync of a directory makes its entries (creations and removals) durable
-		for _, e := range n.Ents {
+		for _, e := range n.Ents.Nodes() {
 			e.Durable = true
 		}
 		n.Ghosts = nil
@@ -492,12 +650,14 @@ func (d *Disk) syncNode(n *Node) {
 	n.Durable = true
 }
 
+//go:norace
 func (d *Disk) syncInode(ino *Inode) {
-	ino.Synced = append(ino.Synced[:0:0], ino.Data...)
+	ino.Synced = rawClone(ino.Data)
 	ino.EverSynced = true
 	ino.Pending = nil
 }
 
+//go:norace
 func (f *File) Close() error {
 	if f == nil {
 		return os.ErrInvalid
@@ -510,6 +670,7 @@ func (f *File) Close() error {
 	return nil
 }
 
+//go:norace
 func (f *File) Stat() (os.FileInfo, error) {
 	if err := f.check("stat"); err != nil {
 		return nil, err
@@ -517,6 +678,7 @@ func (f *File) Stat() (os.FileInfo, error) {
 	return infoOf(f.node), nil
 }
 
+//go:norace
 func (f *File) Chmod(m os.FileMode) error {
 	if err := f.check("chmod"); err != nil {
 		return err
@@ -526,6 +688,8 @@ func (f *File) Chmod(m os.FileMode) error {
 }
 
 // Readdir reads the directory (n<=0: all remaining).
+//
+//go:norace
 func (f *File) Readdir(n int) ([]os.FileInfo, error) {
 	if err := f.check("readdir"); err != nil {
 		return nil, err
@@ -551,6 +715,7 @@ func (f *File) Readdir(n int) ([]os.FileInfo, error) {
 	return rest, nil
 }
 
+//go:norace
 func (f *File) Readdirnames(n int) ([]string, error) {
 	fis, err := f.Readdir(n)
 	var out []string
@@ -561,14 +726,25 @@ func (f *File) Readdirnames(n int) ([]string, error) {
 }
 
 // Inode exposes the inode (used by the mmap shim).
+//
+//go:norace
 func (f *File) Inode() *Inode { return f.ino }
-func (f *File) Disk() *Disk   { return f.d }
-func (f *File) IsDir() bool   { return f.node.Dir }
-func (f *File) Flags() int    { return f.flags }
-func (f *File) Closed() bool  { return f.closed }
+
+//go:norace
+func (f *File) Disk() *Disk { return f.d }
+
+//go:norace
+func (f *File) IsDir() bool { return f.node.Dir }
+
+//go:norace
+func (f *File) Flags() int { return f.flags }
+
+//go:norace
+func (f *File) Closed() bool { return f.closed }
 
 // ---------------------------------------------------------------- namespace ops
 
+//go:norace
 func (d *Disk) Stat(name string) (os.FileInfo, error) {
 	d.enter("stat", name, 0, nil, false, nil)
 	_, _, n, err := d.lookup("stat", name)
@@ -581,6 +757,7 @@ func (d *Disk) Stat(name string) (os.FileInfo, error) {
 	return infoOf(n), nil
 }
 
+//go:norace
 func (d *Disk) Mkdir(name string, perm os.FileMode) error {
 	act := d.enter("mkdir", name, 0, nil, true, nil)
 	if act.Kind != "" {
@@ -594,10 +771,11 @@ func (d *Disk) Mkdir(name string, perm os.FileMode) error {
 		return perr("mkdir", name, syscall.EEXIST)
 	}
 	// assumption (DESIGN §2.3): directories are durable once created
-	parent.Ents[base] = &Node{Name: base, Dir: true, Mode: os.ModeDir | perm&os.ModePerm, Ents: map[string]*Node{}, Durable: true, MTime: d.w.Clock.NowNS()}
+	parent.Ents.Put(base, &Node{Name: base, Dir: true, Mode: os.ModeDir | perm&os.ModePerm, Ents: newDirEnts(), Durable: true, MTime: d.w.Clock.NowNS()})
 	return nil
 }
 
+//go:norace
 func (d *Disk) MkdirAll(name string, perm os.FileMode) error {
 	parts := split(name)
 	cur := ""
@@ -620,6 +798,7 @@ func (d *Disk) MkdirAll(name string, perm os.FileMode) error {
 	return nil
 }
 
+//go:norace
 func (d *Disk) Remove(name string) error {
 	act := d.enter("remove", name, 0, nil, true, nil)
 	if act.Kind != "" {
@@ -635,31 +814,27 @@ func (d *Disk) Remove(name string) error {
 	if parent == nil {
 		return perr("remove", name, syscall.EBUSY)
 	}
-	if n.Dir && len(n.Ents) > 0 {
+	if n.Dir && n.Ents.Len() > 0 {
 		return perr("remove", name, syscall.ENOTEMPTY)
 	}
-	delete(parent.Ents, base)
+	parent.Ents.Del(base)
 	if n.Durable && !n.Dir {
 		if parent.Ghosts == nil {
-			parent.Ghosts = map[string]*Node{}
+			parent.Ghosts = newDirEnts()
 		}
-		parent.Ghosts[base] = n
+		parent.Ghosts.Put(base, n)
 	}
 	return nil
 }
 
+//go:norace
 func (d *Disk) RemoveAll(name string) error {
 	_, _, n, err := d.lookup("remove", name)
 	if err != nil || n == nil {
 		return nil
 	}
 	if n.Dir {
-		names := make([]string, 0, len(n.Ents))
-		for k := range n.Ents {
-			names = append(names, k)
-		}
-		sort.Strings(names)
-		for _, k := range names {
+		for _, k := range n.Ents.Names() {
 			if err := d.RemoveAll(path.Join(name, k)); err != nil {
 				return err
 			}
@@ -671,6 +846,7 @@ func (d *Disk) RemoveAll(name string) error {
 	return d.Remove(name)
 }
 
+//go:norace
 func (d *Disk) Rename(oldp, newp string) error {
 	act := d.enter("rename", oldp+"->"+newp, 0, nil, true, nil)
 	if act.Kind != "" {
@@ -691,32 +867,33 @@ func (d *Disk) Rename(oldp, newp string) error {
 		return &os.LinkError{Op: "rename", Old: oldp, New: newp, Err: syscall.EINVAL}
 	}
 	if nn != nil {
-		if nn.Dir != on.Dir || (nn.Dir && len(nn.Ents) > 0) {
+		if nn.Dir != on.Dir || (nn.Dir && nn.Ents.Len() > 0) {
 			return &os.LinkError{Op: "rename", Old: oldp, New: newp, Err: syscall.EEXIST}
 		}
 		if nn.Durable && !nn.Dir {
 			if np.Ghosts == nil {
-				np.Ghosts = map[string]*Node{}
+				np.Ghosts = newDirEnts()
 			}
-			np.Ghosts[nb] = nn
+			np.Ghosts.Put(nb, nn)
 		}
 	}
-	delete(op.Ents, ob)
+	op.Ents.Del(ob)
 	if on.Durable && !on.Dir {
 		if op.Ghosts == nil {
-			op.Ghosts = map[string]*Node{}
+			op.Ghosts = newDirEnts()
 		}
 		// the old name may come back after power loss
 		g := *on
-		op.Ghosts[ob] = &g
+		op.Ghosts.Put(ob, &g)
 	}
 	moved := *on
 	moved.Name = nb
 	moved.Durable = on.Dir
-	np.Ents[nb] = &moved
+	np.Ents.Put(nb, &moved)
 	return nil
 }
 
+//go:norace
 func (d *Disk) Chmod(name string, m os.FileMode) error {
 	d.enter("chmod", name, 0, nil, false, nil)
 	_, _, n, err := d.lookup("chmod", name)
@@ -730,6 +907,7 @@ func (d *Disk) Chmod(name string, m os.FileMode) error {
 	return nil
 }
 
+//go:norace
 func (d *Disk) TruncatePath(name string, size int64) error {
 	f, err := d.OpenFile(name, os.O_WRONLY, 0)
 	if err != nil {
@@ -740,6 +918,8 @@ func (d *Disk) TruncatePath(name string, size int64) error {
 }
 
 // ReadDir lists a directory sorted by name.
+//
+//go:norace
 func (d *Disk) ReadDir(name string) ([]os.FileInfo, error) {
 	d.enter("readdir", name, 0, nil, false, nil)
 	_, _, n, err := d.lookup("open", name)
@@ -755,15 +935,12 @@ func (d *Disk) ReadDir(name string) ([]os.FileInfo, error) {
 	return listDir(n), nil
 }
 
+//go:norace
 func listDir(n *Node) []os.FileInfo {
-	names := make([]string, 0, len(n.Ents))
-	for k := range n.Ents {
-		names = append(names, k)
-	}
-	sort.Strings(names)
-	out := make([]os.FileInfo, 0, len(names))
-	for _, k := range names {
-		out = append(out, infoOf(n.Ents[k]))
+	nodes := n.Ents.Nodes()
+	out := make([]os.FileInfo, 0, len(nodes))
+	for _, e := range nodes {
+		out = append(out, infoOf(e))
 	}
 	return out
 }
@@ -777,13 +954,25 @@ type fileInfo struct {
 	dir   bool
 }
 
-func (fi *fileInfo) Name() string       { return fi.name }
-func (fi *fileInfo) Size() int64        { return fi.size }
-func (fi *fileInfo) Mode() os.FileMode  { return fi.mode }
-func (fi *fileInfo) ModTime() time.Time { return time.Unix(0, fi.mtime) }
-func (fi *fileInfo) IsDir() bool        { return fi.dir }
-func (fi *fileInfo) Sys() interface{}   { return nil }
+//go:norace
+func (fi *fileInfo) Name() string { return fi.name }
 
+//go:norace
+func (fi *fileInfo) Size() int64 { return fi.size }
+
+//go:norace
+func (fi *fileInfo) Mode() os.FileMode { return fi.mode }
+
+//go:norace
+func (fi *fileInfo) ModTime() time.Time { return time.Unix(0, fi.mtime) }
+
+//go:norace
+func (fi *fileInfo) IsDir() bool { return fi.dir }
+
+//go:norace
+func (fi *fileInfo) Sys() interface{} { return nil }
+
+//go:norace
 func infoOf(n *Node) os.FileInfo {
 	fi := &fileInfo{name: n.Name, mode: n.Mode, mtime: n.MTime, dir: n.Dir}
 	if n.Dir {
@@ -799,6 +988,8 @@ func infoOf(n *Node) os.FileInfo {
 
 // MapInode registers a live mapping and returns the mapped bytes, which ARE the
 // file's volatile image (MAP_SHARED).
+//
+//go:norace
 func (d *Disk) MapInode(f *File) ([]byte, error) {
 	if err := f.check("mmap"); err != nil {
 		return nil, err
@@ -815,7 +1006,7 @@ func (d *Disk) MapInode(f *File) ([]byte, error) {
 		return nil, syscall.EINVAL
 	}
 	if ino.nmap == 0 {
-		ino.shadow = append([]byte(nil), ino.Data...)
+		ino.shadow = rawClone(ino.Data)
 		d.mapped = append(d.mapped, ino)
 	}
 	ino.nmap++
@@ -823,6 +1014,8 @@ func (d *Disk) MapInode(f *File) ([]byte, error) {
 }
 
 // FlushInode is msync.
+//
+//go:norace
 func (d *Disk) FlushInode(ino *Inode, name string) error {
 	act := d.enter("msync", name, 0, nil, true, ino)
 	switch act.Kind {
@@ -836,14 +1029,16 @@ func (d *Disk) FlushInode(ino *Inode, name string) error {
 	return nil
 }
 
+//go:norace
 func (d *Disk) syncMapped(ino *Inode) {
 	d.syncInode(ino)
 	// the directory entry: find it (assumption as for Sync)
 	d.markDurable(d.Root, ino)
 }
 
+//go:norace
 func (d *Disk) markDurable(n *Node, ino *Inode) bool {
-	for _, e := range n.Ents {
+	for _, e := range n.Ents.Nodes() {
 		if e.Dir {
 			if d.markDurable(e, ino) {
 				return true
@@ -857,6 +1052,8 @@ func (d *Disk) markDurable(n *Node, ino *Inode) bool {
 }
 
 // UnmapInode drops one mapping.
+//
+//go:norace
 func (d *Disk) UnmapInode(ino *Inode, name string) error {
 	d.enter("munmap", name, 0, nil, false, ino)
 	if ino.nmap <= 0 {
@@ -881,12 +1078,14 @@ func (d *Disk) UnmapInode(ino *Inode, name string) error {
 // volatile content (the kernel page cache survives a process crash) and
 // everything present counts as durable from then on.  over replaces the
 // content of one inode (used for "before this mmap store" and torn writes).
+//
+//go:norace
 func cloneCrash(n *Node, over map[*Inode][]byte) *Node {
 	c := &Node{Name: n.Name, Dir: n.Dir, Mode: n.Mode, Durable: true, MTime: n.MTime}
 	if n.Dir {
-		c.Ents = make(map[string]*Node, len(n.Ents))
-		for k, e := range n.Ents {
-			c.Ents[k] = cloneCrash(e, over)
+		c.Ents = newDirEnts()
+		for _, e := range n.Ents.Nodes() {
+			c.Ents.Put(e.Name, cloneCrash(e, over))
 		}
 		return c
 	}
@@ -901,26 +1100,25 @@ func cloneCrash(n *Node, over map[*Inode][]byte) *Node {
 
 // CloneImage copies a mounted/mountable image (so one image can be mounted
 // several times).
+//
+//go:norace
 func CloneImage(n *Node) *Node { return cloneCrash(n, nil) }
 
 // clonePowerLoss builds a power-loss image: each file reverts to its durable
 // content plus a seeded choice among its unsynced operations; never-synced
 // creations may vanish; unsynced removals may be undone.
+//
+//go:norace
 func clonePowerLoss(n *Node, over map[*Inode][]byte, tornOp *PendOp, tornIno *Inode, r *Rng, mode int) *Node {
 	c := &Node{Name: n.Name, Dir: n.Dir, Mode: n.Mode, Durable: true, MTime: n.MTime}
 	if !n.Dir {
 		panic("clonePowerLoss on file")
 	}
-	c.Ents = map[string]*Node{}
-	names := make([]string, 0, len(n.Ents))
-	for k := range n.Ents {
-		names = append(names, k)
-	}
-	sort.Strings(names)
-	for _, k := range names {
-		e := n.Ents[k]
+	c.Ents = newDirEnts()
+	for _, k := range n.Ents.Names() {
+		e := n.Ents.Get(k)
 		if e.Dir {
-			c.Ents[k] = clonePowerLoss(e, over, tornOp, tornIno, r, mode)
+			c.Ents.Put(k, clonePowerLoss(e, over, tornOp, tornIno, r, mode))
 			continue
 		}
 		if !e.Durable {
@@ -929,20 +1127,15 @@ func clonePowerLoss(n *Node, over map[*Inode][]byte, tornOp *PendOp, tornIno *In
 				continue
 			}
 		}
-		c.Ents[k] = &Node{Name: k, Mode: e.Mode, Durable: true, MTime: e.MTime, Ino: plInode(e.Ino, tornOp, tornIno, r, mode)}
+		c.Ents.Put(k, &Node{Name: k, Mode: e.Mode, Durable: true, MTime: e.MTime, Ino: plInode(e.Ino, tornOp, tornIno, r, mode)})
 	}
-	gn := make([]string, 0, len(n.Ghosts))
-	for k := range n.Ghosts {
-		gn = append(gn, k)
-	}
-	sort.Strings(gn)
-	for _, k := range gn {
-		if _, live := c.Ents[k]; live {
+	for _, k := range n.Ghosts.Names() {
+		if c.Ents.Get(k) != nil {
 			continue
 		}
 		if plChoice(r, mode, 2) == 1 {
-			g := n.Ghosts[k]
-			c.Ents[k] = &Node{Name: k, Mode: g.Mode, Durable: true, MTime: g.MTime, Ino: plInode(g.Ino, nil, nil, r, mode)}
+			g := n.Ghosts.Get(k)
+			c.Ents.Put(k, &Node{Name: k, Mode: g.Mode, Durable: true, MTime: g.MTime, Ino: plInode(g.Ino, nil, nil, r, mode)})
 			if W != nil {
 				W.Stats.Probes["powerloss-removal-undone"]++
 			}
@@ -952,6 +1145,8 @@ func clonePowerLoss(n *Node, over map[*Inode][]byte, tornOp *PendOp, tornIno *In
 }
 
 // plChoice: mode 0 = lose everything unsynced, 1 = keep everything, 2 = seeded.
+//
+//go:norace
 func plChoice(r *Rng, mode int, n int) int {
 	switch mode {
 	case 0:
@@ -962,6 +1157,7 @@ func plChoice(r *Rng, mode int, n int) int {
 	return r.Intn(n)
 }
 
+//go:norace
 func plInode(ino *Inode, tornOp *PendOp, tornIno *Inode, r *Rng, mode int) *Inode {
 	var data []byte
 	if ino.EverSynced {
@@ -1000,6 +1196,7 @@ func plInode(ino *Inode, tornOp *PendOp, tornIno *Inode, r *Rng, mode int) *Inod
 	return &Inode{ID: ino.ID, Data: data, Synced: data, EverSynced: true, Links: 1}
 }
 
+//go:norace
 func applyOp(data []byte, op PendOp, cut int) []byte {
 	if op.Trunc {
 		if op.Size <= int64(len(data)) {
@@ -1024,6 +1221,8 @@ func applyOp(data []byte, op PendOp, cut int) []byte {
 }
 
 // Mount makes image the content of this world's disk (the image is copied).
+//
+//go:norace
 func (d *Disk) Mount(image *Node) {
 	d.Root = CloneImage(image)
 	d.mapped = nil
@@ -1031,12 +1230,15 @@ func (d *Disk) Mount(image *Node) {
 
 // TreeDigest renders names, sizes and content hashes of a subtree, for
 // "directory unchanged" comparisons and image de-duplication.
+//
+//go:norace
 func TreeDigest(n *Node) string {
 	var sb strings.Builder
 	digest(&sb, n, "")
 	return sb.String()
 }
 
+//go:norace
 func digest(sb *strings.Builder, n *Node, prefix string) {
 	p := prefix + n.Name
 	if n.Dir {
@@ -1044,13 +1246,8 @@ func digest(sb *strings.Builder, n *Node, prefix string) {
 			p += "/"
 		}
 		fmt.Fprintf(sb, "%s\n", p)
-		names := make([]string, 0, len(n.Ents))
-		for k := range n.Ents {
-			names = append(names, k)
-		}
-		sort.Strings(names)
-		for _, k := range names {
-			digest(sb, n.Ents[k], p)
+		for _, e := range n.Ents.Nodes() {
+			digest(sb, e, p)
 		}
 		return
 	}
@@ -1058,6 +1255,8 @@ func digest(sb *strings.Builder, n *Node, prefix string) {
 }
 
 // Find returns the node at path p (nil if absent), without counting an I/O point.
+//
+//go:norace
 func (d *Disk) Find(p string) *Node {
 	_, _, n, err := d.lookup("find", p)
 	if err != nil {
@@ -1067,6 +1266,8 @@ func (d *Disk) Find(p string) *Node {
 }
 
 // Walk calls fn for every regular file under p, sorted.
+//
+//go:norace
 func (d *Disk) Walk(p string, fn func(path string, n *Node)) {
 	n := d.Find(p)
 	if n == nil {
@@ -1075,17 +1276,13 @@ func (d *Disk) Walk(p string, fn func(path string, n *Node)) {
 	walk(path.Clean("/"+p), n, fn)
 }
 
+//go:norace
 func walk(p string, n *Node, fn func(string, *Node)) {
 	if !n.Dir {
 		fn(p, n)
 		return
 	}
-	names := make([]string, 0, len(n.Ents))
-	for k := range n.Ents {
-		names = append(names, k)
-	}
-	sort.Strings(names)
-	for _, k := range names {
-		walk(path.Join(p, k), n.Ents[k], fn)
+	for _, e := range n.Ents.Nodes() {
+		walk(path.Join(p, e.Name), e, fn)
 	}
 }
